@@ -14,6 +14,18 @@
 #define __CPROVER_assume(c) ((void)0)
 #endif
 typedef unsigned long size_t;
+#ifdef VERIF_CBMC
+/* same floating-point value: identical bits, or both NaN */
+#define FEQ(x, y) (__CPROVER_equal(x, y) || ((x) != (x) && (y) != (y)))
+#define NOOVF_PLUS(a, b) (!__CPROVER_overflow_plus(a, b))
+#define NOOVF_MINUS(a, b) (!__CPROVER_overflow_minus(a, b))
+#define NOOVF_MULT(a, b) (!__CPROVER_overflow_mult(a, b))
+#else
+#define FEQ(x, y) ({ __typeof__(x) x__ = (x); __typeof__(y) y__ = (y); (sizeof(x__) == sizeof(y__) && __builtin_memcmp(&x__, &y__, sizeof(x__)) == 0) || (x__ != x__ && y__ != y__); })
+#define NOOVF_PLUS(a, b) ({ __typeof__((a) + (b)) r__; !__builtin_add_overflow(a, b, &r__); })
+#define NOOVF_MINUS(a, b) ({ __typeof__((a) - (b)) r__; !__builtin_sub_overflow(a, b, &r__); })
+#define NOOVF_MULT(a, b) ({ __typeof__((a) * (b)) r__; !__builtin_mul_overflow(a, b, &r__); })
+#endif
 #define IMP(a, b) (!(a) || (b))
 #define IFF(a, b) (((a) != 0) == ((b) != 0))
 
@@ -43,6 +55,97 @@ VERIF_MINMAX(double, double)
 static inline int verif_abs_i(int x) { return x < 0 ? -x : x; }
 static inline long verif_abs_l(long x) { return x < 0 ? -x : x; }
 static inline long long verif_abs_ll(long long x) { return x < 0 ? -x : x; }
+
+
+/* scalar arithmetic as uninterpreted functions (units with opts uf_arith / uf_float): a sound abstraction --
+ * what is proved for every interpretation of these symbols holds for the machine operations */
+#ifdef VERIF_CBMC
+int __CPROVER_uninterpreted_add_i32(int, int);
+#define verif_add_i32(a, b) __CPROVER_uninterpreted_add_i32(a, b)
+unsigned int __CPROVER_uninterpreted_add_u32(unsigned int, unsigned int);
+#define verif_add_u32(a, b) __CPROVER_uninterpreted_add_u32(a, b)
+long __CPROVER_uninterpreted_add_i64(long, long);
+#define verif_add_i64(a, b) __CPROVER_uninterpreted_add_i64(a, b)
+unsigned long __CPROVER_uninterpreted_add_u64(unsigned long, unsigned long);
+#define verif_add_u64(a, b) __CPROVER_uninterpreted_add_u64(a, b)
+float __CPROVER_uninterpreted_add_f32(float, float);
+#define verif_add_f32(a, b) __CPROVER_uninterpreted_add_f32(a, b)
+double __CPROVER_uninterpreted_add_f64(double, double);
+#define verif_add_f64(a, b) __CPROVER_uninterpreted_add_f64(a, b)
+int __CPROVER_uninterpreted_sub_i32(int, int);
+#define verif_sub_i32(a, b) __CPROVER_uninterpreted_sub_i32(a, b)
+unsigned int __CPROVER_uninterpreted_sub_u32(unsigned int, unsigned int);
+#define verif_sub_u32(a, b) __CPROVER_uninterpreted_sub_u32(a, b)
+long __CPROVER_uninterpreted_sub_i64(long, long);
+#define verif_sub_i64(a, b) __CPROVER_uninterpreted_sub_i64(a, b)
+unsigned long __CPROVER_uninterpreted_sub_u64(unsigned long, unsigned long);
+#define verif_sub_u64(a, b) __CPROVER_uninterpreted_sub_u64(a, b)
+float __CPROVER_uninterpreted_sub_f32(float, float);
+#define verif_sub_f32(a, b) __CPROVER_uninterpreted_sub_f32(a, b)
+double __CPROVER_uninterpreted_sub_f64(double, double);
+#define verif_sub_f64(a, b) __CPROVER_uninterpreted_sub_f64(a, b)
+int __CPROVER_uninterpreted_mul_i32(int, int);
+#define verif_mul_i32(a, b) __CPROVER_uninterpreted_mul_i32(a, b)
+unsigned int __CPROVER_uninterpreted_mul_u32(unsigned int, unsigned int);
+#define verif_mul_u32(a, b) __CPROVER_uninterpreted_mul_u32(a, b)
+long __CPROVER_uninterpreted_mul_i64(long, long);
+#define verif_mul_i64(a, b) __CPROVER_uninterpreted_mul_i64(a, b)
+unsigned long __CPROVER_uninterpreted_mul_u64(unsigned long, unsigned long);
+#define verif_mul_u64(a, b) __CPROVER_uninterpreted_mul_u64(a, b)
+float __CPROVER_uninterpreted_mul_f32(float, float);
+#define verif_mul_f32(a, b) __CPROVER_uninterpreted_mul_f32(a, b)
+double __CPROVER_uninterpreted_mul_f64(double, double);
+#define verif_mul_f64(a, b) __CPROVER_uninterpreted_mul_f64(a, b)
+int __CPROVER_uninterpreted_div_i32(int, int);
+#define verif_div_i32(a, b) __CPROVER_uninterpreted_div_i32(a, b)
+unsigned int __CPROVER_uninterpreted_div_u32(unsigned int, unsigned int);
+#define verif_div_u32(a, b) __CPROVER_uninterpreted_div_u32(a, b)
+long __CPROVER_uninterpreted_div_i64(long, long);
+#define verif_div_i64(a, b) __CPROVER_uninterpreted_div_i64(a, b)
+unsigned long __CPROVER_uninterpreted_div_u64(unsigned long, unsigned long);
+#define verif_div_u64(a, b) __CPROVER_uninterpreted_div_u64(a, b)
+float __CPROVER_uninterpreted_div_f32(float, float);
+#define verif_div_f32(a, b) __CPROVER_uninterpreted_div_f32(a, b)
+double __CPROVER_uninterpreted_div_f64(double, double);
+#define verif_div_f64(a, b) __CPROVER_uninterpreted_div_f64(a, b)
+int __CPROVER_uninterpreted_mod_i32(int, int);
+#define verif_mod_i32(a, b) __CPROVER_uninterpreted_mod_i32(a, b)
+unsigned int __CPROVER_uninterpreted_mod_u32(unsigned int, unsigned int);
+#define verif_mod_u32(a, b) __CPROVER_uninterpreted_mod_u32(a, b)
+long __CPROVER_uninterpreted_mod_i64(long, long);
+#define verif_mod_i64(a, b) __CPROVER_uninterpreted_mod_i64(a, b)
+unsigned long __CPROVER_uninterpreted_mod_u64(unsigned long, unsigned long);
+#define verif_mod_u64(a, b) __CPROVER_uninterpreted_mod_u64(a, b)
+#else
+#define verif_add_i32(a, b) ((int)((int)(a) + (int)(b)))
+#define verif_add_u32(a, b) ((unsigned int)((unsigned int)(a) + (unsigned int)(b)))
+#define verif_add_i64(a, b) ((long)((long)(a) + (long)(b)))
+#define verif_add_u64(a, b) ((unsigned long)((unsigned long)(a) + (unsigned long)(b)))
+#define verif_add_f32(a, b) ((float)((float)(a) + (float)(b)))
+#define verif_add_f64(a, b) ((double)((double)(a) + (double)(b)))
+#define verif_sub_i32(a, b) ((int)((int)(a) - (int)(b)))
+#define verif_sub_u32(a, b) ((unsigned int)((unsigned int)(a) - (unsigned int)(b)))
+#define verif_sub_i64(a, b) ((long)((long)(a) - (long)(b)))
+#define verif_sub_u64(a, b) ((unsigned long)((unsigned long)(a) - (unsigned long)(b)))
+#define verif_sub_f32(a, b) ((float)((float)(a) - (float)(b)))
+#define verif_sub_f64(a, b) ((double)((double)(a) - (double)(b)))
+#define verif_mul_i32(a, b) ((int)((int)(a) * (int)(b)))
+#define verif_mul_u32(a, b) ((unsigned int)((unsigned int)(a) * (unsigned int)(b)))
+#define verif_mul_i64(a, b) ((long)((long)(a) * (long)(b)))
+#define verif_mul_u64(a, b) ((unsigned long)((unsigned long)(a) * (unsigned long)(b)))
+#define verif_mul_f32(a, b) ((float)((float)(a) * (float)(b)))
+#define verif_mul_f64(a, b) ((double)((double)(a) * (double)(b)))
+#define verif_div_i32(a, b) ((int)((int)(a) / (int)(b)))
+#define verif_div_u32(a, b) ((unsigned int)((unsigned int)(a) / (unsigned int)(b)))
+#define verif_div_i64(a, b) ((long)((long)(a) / (long)(b)))
+#define verif_div_u64(a, b) ((unsigned long)((unsigned long)(a) / (unsigned long)(b)))
+#define verif_div_f32(a, b) ((float)((float)(a) / (float)(b)))
+#define verif_div_f64(a, b) ((double)((double)(a) / (double)(b)))
+#define verif_mod_i32(a, b) ((int)((int)(a) % (int)(b)))
+#define verif_mod_u32(a, b) ((unsigned int)((unsigned int)(a) % (unsigned int)(b)))
+#define verif_mod_i64(a, b) ((long)((long)(a) % (long)(b)))
+#define verif_mod_u64(a, b) ((unsigned long)((unsigned long)(a) % (unsigned long)(b)))
+#endif
 
 /* libm: uninterpreted, assumed contracts only */
 float verif_sqrtf(float x);
